@@ -32,10 +32,10 @@ def _wrappers(cy: CyProgram):
             k = "real"          # the threshold, at whatever precision
         i = seen.get(k, 0)
         seen[k] = i + 1
-        if (k, i) not in ROLE:
-            raise AnalysisError(f"{core.where}: _line_dist parameter `{a}` of type {k} "
-                                f"has no known role (signature changed)")
-        pnames.append(ROLE[(k, i)])
+        # a parameter without a known role (the line type spelled as an enum
+        # instead of two index functions, say) is carried under its own name:
+        # the facets that need the missing roles are then not decided
+        pnames.append(ROLE.get((k, i), f"?{a}"))
     out = {}
     for f in m.funcs.values():
         if f is core or f.kind != "def":
@@ -150,6 +150,17 @@ def l1(run: Run, prog: Program, cy: CyProgram):
         exp["skip_main"] = ("const", "True" if ft["line"] == "diag" else "False")
         exp["black"] = ("const", "False" if ft["white"] else "True")
         exp["missing_values"] = ("const", "True" if ft["mv"] else "False")
+        undecided = sorted(k for k in exp if k not in a)
+        if undecided:
+            run.unknowns.append(f"L1: {name}: _line_dist has no parameter in the role(s) "
+                                f"{undecided}; that part of the dispatch is not decided")
+        exp = {k: v for k, v in exp.items() if k in a}
+        needed = ("E", "R", "eps", "dim", "metric", "M", "n_time", "hist")
+        if any(k not in a for k in needed):
+            run.unknowns.append(f"L1: {name}: storage roles "
+                                f"{[k for k in needed if k not in a]} not found in the "
+                                f"signature of _line_dist; wrapper not decided")
+            continue
 
         def show(v):
             return v[1] if len(v) > 1 else "<empty array>"
@@ -189,10 +200,12 @@ def l1(run: Run, prog: Program, cy: CyProgram):
                     f"{', missing values' if ft['mv'] else ''}) passes `{k}={g}` to "
                     f"_line_dist, expected {w}: it no longer computes the same "
                     f"histogram as its siblings in the wrapper table")
-    # the four index helpers must exist
-    for h in ("i2J_vertline", "i2J_diagline", "ij2I_vertline", "ij2I_diagline"):
-        if h not in cy.modules[TS].funcs:
-            raise AnalysisError(f"line type helper {h} vanished")
+    # the four index helpers must exist (when the line type is given by them)
+    roles = {t_.name for _, t_ in core.args}
+    if {"line_type_i2J", "line_type_ij2I"} & roles:
+        for h in ("i2J_vertline", "i2J_diagline", "ij2I_vertline", "ij2I_diagline"):
+            if h not in cy.modules[TS].funcs:
+                raise AnalysisError(f"line type helper {h} vanished")
     return wr
 
 
@@ -354,11 +367,19 @@ def l8(run: Run, cy: CyProgram):
     pos_var = inner[0].a[0].a[0]
     fp = {n for n, t in f.args if t.kind == "simple" and t.name == "line_type_ij2I"}
     sample = {pos_var}
-    for s in walk(f.body):
-        if isinstance(s, X) and s.k == "assign" and s.a[1].k == "call" and \
-                pp(s.a[1].a[0]) in fp:
+    from .cymodel import names_in
+    for s in walk(inner[0].a[2]):
+        if not (isinstance(s, X) and s.k == "assign"):
+            continue
+        # the row coordinate of the cell: computed inside the scan from the line
+        # number and the position (through the line type's index function, or
+        # spelled out as an expression of them)
+        via_fp = s.a[1].k == "call" and pp(s.a[1].a[0]) in fp
+        derived = bool(names_in(s.a[1]) & {line_var, pos_var}) and not (
+            s.a[1].k == "name")
+        if via_fp or derived:
             for t in s.a[0]:
-                if t.k == "name":
+                if t.k == "name" and t.a[0] != line_var:
                     sample.add(t.a[0])
     arrays = {n for n, t in f.args if t.kind in ("buffer", "memview")
               and t.name in ("MASK_t", "LAG_t", "DFIELD_t")}
